@@ -948,7 +948,7 @@ theorem Buf.popn_abs {b : Buf} {xs : List Nat} (h : b.Abs xs) (n : Arg) :
 theorem Buf.fill_abs {b : Buf} {xs : List Nat} (h : b.Abs xs) (v : Int) :
     (b.fill (some (.int v))).2 = .ok ∧ (b.fill (some (.int v))).1.Abs (List.replicate xs.length (lowByte v)) := by
   unfold Buf.fill
-  simp only [getInteger, Option.map_some]
+  simp only [byteArg, getInteger, Option.map_some]
   refine ⟨by first | rfl | trivial, ⟨by simp [h.count_eq], ?_, by simpa [size_writeAt] using h.cap, h.fits, h.pos⟩⟩
   have := rep_write_append (rep_nil b.cells) (List.replicate b.count (lowByte v)) (by
     have := h.rep.len_le; have := h.count_eq; simp; omega)
